@@ -17,7 +17,7 @@ def add(pid, category, text, ref, note, technique):
 add('C17', 'exploration',
     'Complete product of all 256 exponents x 27 boundary mantissas (x 9 hash positions x 4 chains for the proof-of-work '
     'decision), every bit length 0..256 for encoding; thorough adds all 2^24 mantissas for 11 exponents. Each case is '
-    'executed on the real functions and compared with a byte-string formulation of Core\'s Set/GetCompact. Plus every history of <=5 (6) events over {select one of 4 chains, CheckProofOfWork(6 probes)}: each verdict equals the reference verdict for the chain selected at that moment. Plus engine E4: every sequence of <=3 (4) steps over {4 selections, 7 proof-of-work probes, 7 decodings, 6 encodings}, each sequence in its own process forked from a pristine worker (import-time state).',
+    'executed on the real functions and compared with a byte-string formulation of Core\'s Set/GetCompact. Plus every history of <=5 (6) events over {select one of 4 chains, CheckProofOfWork(6 probes)}: each verdict equals the reference verdict for the chain selected at that moment. Plus engine E4: every sequence of <=3 (4) steps over {4 selections, 7 proof-of-work probes, 7 decodings, 6 encodings}, each sequence in its own process forked from a pristine worker (import-time state). The histories include sign-bit targets (refused through the exception path, also when repeated).',
     'DESIGN.md 3 C17', 'Oracle ref/compact.py (validated against the arith_uint256 literal vectors); mantissas between the '
     'boundary values are only covered by the thorough tier.',
     'bounded exhaustive enumeration (complete product) against a reference model')
@@ -43,14 +43,14 @@ add('C03', 'exploration',
     'Complete product: 48 transactions (1..3 in x 0..3 out x witness x class; thorough adds k<=1 field deviations) x 19 subscripts '
     '(CODESEPARATOR first/middle/last/repeated/only/inside push data, PUSHDATA1/2/4 spellings, 255-byte and >64 KiB scripts) x '
     'every index 0..len(vin) x all 256 hash types, RawSignatureHash and SignatureHash, with a full before/after snapshot '
-    '(serialisation, field values and object identities) of the caller\'s transaction. Plus a 300-input transaction (indices across the one-byte count boundary) and a subscript holding a 16 MiB PUSHDATA4 push. Plus call.edit.call chains on ONE mutable transaction and ONE script object that was used before (partial / full iteration, predicates, sig-op counts, an earlier hash): 12 hash types before and after every in-place edit of a catalogue, the last call before an edit identical to the first after it.',
+    '(serialisation, field values and object identities) of the caller\'s transaction. Plus a 300-input transaction (indices across the one-byte count boundary) and a subscript holding a 16 MiB PUSHDATA4 push. Plus call.edit.call chains on ONE mutable transaction and ONE script object that was used before (partial / full iteration, predicates, sig-op counts, an earlier hash): 12 hash types before and after every in-place edit of a catalogue, the last call before an edit identical to the first after it. Plus runs of 40 short-lived transactions (built / deserialised inside the call, dropped at once) and error runs S/R/G^3 through both entry points (the second error behaves like the first).',
     'DESIGN.md 3 C03', 'Oracle ref/sighash.py (preimage assembled from the model by ref/wire.py).',
     'bounded exhaustive enumeration (complete product incl. all 256 hash types) against a reference model')
 
 add('C04', 'exploration',
     'Deviation-bounded product (k<=2 quick / k<=3 thorough) over transaction fields at the uint32/int32/int64 boundaries, amount, '
     'script-code length across every CompactSize boundary, every valid index, both classes; all 256 hash types for k<=1, 12 '
-    'representative (incl. undefined) types for k>=2; digest compared with the BIP143 preimage assembled by the reference. Script codes include witness-program / P2PKH / P2SH shapes; mutable transactions are hashed, edited in place and hashed again. Plus histories on one transaction / script object alternating the legacy and the witness-v0 algorithm with identical arguments in seven orders, and call.edit.call chains over the in-place edit catalogue.',
+    'representative (incl. undefined) types for k>=2; digest compared with the BIP143 preimage assembled by the reference. Script codes include witness-program / P2PKH / P2SH shapes; mutable transactions are hashed, edited in place and hashed again. Plus histories on one transaction / script object alternating the legacy and the witness-v0 algorithm with identical arguments in seven orders, and call.edit.call chains over the in-place edit catalogue. Plus 20 / 70 different transactions hashed three times over (objects kept, and rebuilt) and runs of short-lived transactions.',
     'DESIGN.md 3 C04', 'Oracle ref/sighash.py validated on the BIP143 example vectors shipped in the repository tests.',
     'bounded exhaustive enumeration (deviation-bounded product) against a reference model')
 
@@ -59,7 +59,7 @@ add('C08', 'exploration',
     'of length <=2 (quick) / <=3 (thorough); builder on all token sequences of length <=2 (<=3) over 177 opcodes, 45 integers, '
     '34 byte strings (incl. 64 KiB) with list()/rebuild round trip; raw iteration, cooked iteration, nine predicates and both '
     'sig-op counts on every byte string of length <=2 (<=3), a 48-byte alphabet at length 3 (4), a push-boundary family and a '
-    'length-structured family for the witness/P2SH predicates. Byte strings are also given as bytearray, scripts are also built from generators that construct other scripts while being consumed, and every predicate / sig-op count is called repeatedly and in both orders on one object. Scripts are also built from ONE caller-owned list refilled, appended to and edited in place between constructions.',
+    'length-structured family for the witness/P2SH predicates. Byte strings are also given as bytearray, scripts are also built from generators that construct other scripts while being consumed, and every predicate / sig-op count is called repeatedly and in both orders on one object. Scripts are also built from ONE caller-owned list refilled, appended to and edited in place between constructions. Every predicate / count is repeated on the same object.',
     'DESIGN.md 3 C08', 'Oracle ref/script.py (tokenizer is prefix-consistent by self-test; codec validated on literal vectors).',
     'bounded exhaustive enumeration (all short byte strings / token sequences) against a reference model')
 
@@ -77,7 +77,7 @@ add('C11', 'fault_enumeration',
     'programs; all strings with a valid checksum over every version symbol x payload length 0..66 x every last symbol (padding, '
     'length, version rules on both sides); every single substitution/deletion/insertion/truncation/case flip of 6 addresses; '
     'every double substitution in the data part (2 addresses quick, 6 thorough); every triple (and quadruple in thorough) '
-    'position set over 3 alternatives; every burst of 3 (4) adjacent symbols over all alternatives. Plus checksum-valid addresses under look-alike prefixes (prefix confusion) and 17 non-ASCII confusable characters substituted at every position in lower- and upper-case renderings. Plus checksums made with foreign constants (bech32m, 0, other small values) refused, and upper-/mixed-case renderings of whole addresses. After every call the results handed out by the previous call (decode result, CBech32Data object) are re-examined, and a valid address is decoded right after every refused string.',
+    'position set over 3 alternatives; every burst of 3 (4) adjacent symbols over all alternatives. Plus checksum-valid addresses under look-alike prefixes (prefix confusion) and 17 non-ASCII confusable characters substituted at every position in lower- and upper-case renderings. Plus checksums made with foreign constants (bech32m, 0, other small values) refused, and upper-/mixed-case renderings of whole addresses. After every call the results handed out by the previous call (decode result, CBech32Data object) are re-examined, and a valid address is decoded right after every refused string. Encodings that must fail (versions 31, 32, 255, -1), a mainnet address decoded before and a mixed-case string judged after every encode call, prefixes containing a 1 at the offsets where other prefixes end, every address object printed again under two other chains.',
     'DESIGN.md 3 C11', 'Oracle ref/bech32.py: checksum as a polynomial remainder over GF(32) (independent of the library\'s polymod), '
     'validated on the BIP173 vectors; for multi-substitution families the linear syndrome decides checksum validity.',
     'exhaustive single/double fault enumeration (plus bounded multi-fault families) against a reference model')
@@ -87,7 +87,7 @@ add('C15', 'exploration',
     'pattern (2^n) and every duplicate pattern (all set partitions of positions, with and without witnesses): whole merkle tree, '
     'root, witness root (coinbase zeroed, NoWitnessData iff no stack non-empty), zero-root fill-in, constructed and deserialised; '
     'every single-byte and single-bit change of the correct root refused; tx weight on the C01 shapes (k<=1/2) and block weight '
-    'incl. 252/253/254 transactions. Plus weight after in-place edits of a mutable transaction, coinbase-shaped transactions in later positions, and the caller\'s txid list left untouched by tree building (second call, tuple). Plus ONE caller-owned transaction list / txid list grown, shrunk and edited in place between block constructions and tree computations; a failing weight computation precedes every weight.',
+    'incl. 252/253/254 transactions. Plus weight after in-place edits of a mutable transaction, coinbase-shaped transactions in later positions, and the caller\'s txid list left untouched by tree building (second call, tuple). Plus ONE caller-owned transaction list / txid list grown, shrunk and edited in place between block constructions and tree computations; a failing weight computation precedes every weight. Plus blocks deserialised from (and built from transactions parsed one by one from) accepted non-canonical encodings; a failing block deserialisation precedes every construction.',
     'DESIGN.md 3 C15', 'Oracle ref/wire.py merkle_root/merkle_tree (validated on mainnet block 100000) and reference sizes.',
     'bounded exhaustive enumeration (all counts, all partitions up to n) against a reference model')
 
@@ -97,7 +97,7 @@ add('C20', 'model_checking',
     'dedup on (vData, nHashFuncs, nTweak, nFlags) = the whole object state; in every state the set bits equal the union of the '
     'BIP37 schedule bits, every inserted element is contained, every membership answer equals the schedule-defined one and '
     'survives the wire round trip. Plus MurmurHash3 (lengths 0..17 x fills x seeds), constructor sizing/caps over a parameter '
-    'grid, constructed filters, and wire filters with empty data. Configurations include zero hash functions. The same filter object is serialised, and compared with the wire form of the model, in every state it passes through.',
+    'grid, constructed filters, and wire filters with empty data. Configurations include zero hash functions. The same filter object is serialised, and compared with the wire form of the model, in every state it passes through. Every element is queried in every state (also right before it is inserted).',
     'DESIGN.md 3 C20', 'Oracle ref/bloom.py (MurmurHash3 validated on the repository\'s vectors). State dedup is sound: a filter has no other state.',
     'explicit-state breadth-first search over the real transition function with history replay, reference-model agreement in every state')
 
@@ -107,7 +107,7 @@ add('C13', 'exploration',
     'r with 31 bytes, r>=2^255, high S before normalisation, 31-byte s) + unowned draws for signing (strict DER, low S, reference '
     'verification equation, byte-equality with the deterministic result); low-S normalisation grid; verification table over 12 '
     'signature classes x compressed/uncompressed/hybrid keys; public-key validity grid over every prefix byte x {33,65} bytes x '
-    'coordinate classes. Plus key-object histories: three public-key objects alive in every order, set_compressed/get_pubkey sequences on one CECKey, WIF across chain switches. Plus every signature of 0..9 bytes over a DER-shaped alphabet and odd-sized signatures (never accepted, never an exception other than a refusal). Plus ONE public-key object verifying every sequence of <=3 out of 8 signatures of four encoded lengths.',
+    'coordinate classes. Plus key-object histories: three public-key objects alive in every order, set_compressed/get_pubkey sequences on one CECKey, WIF across chain switches. Plus every signature of 0..9 bytes over a DER-shaped alphabet and odd-sized signatures (never accepted, never an exception other than a refusal). Plus ONE public-key object verifying every sequence of <=3 out of 8 signatures of four encoded lengths. Plus one key object signing every sequence of 3 out of 4 owned-nonce signatures of different lengths, a public key outliving its secret while other secrets are created, a valid key and signature right after refused ones.',
     'DESIGN.md 3 C13', 'Oracle ref/secp256k1.py (group-law self-tests, cross-checked against OpenSSL on oracle-made signatures). The ECDSA nonce is '
     'owned by proxying bitcoin.core.key._ssl (ECDSA_sign -> ECDSA_sign_ex); OpenSSL arithmetic itself is trusted.',
     'bounded exhaustive enumeration (complete products, nonce as enumerated environment answer) against a reference model')
@@ -156,7 +156,7 @@ add('C05', 'fault_enumeration',
     'version, lock time, witness; insert/remove/duplicate/swap of inputs and outputs at every position) and every signature '
     'substitution (foreign key, flipped hash-type byte, permuted order, duplicated signature, substituted redeem script). Oracle: '
     'verifies iff the reference signature hash of the edited transaction equals the signed digest; a hand-written commitment '
-    'table must agree with that oracle (self-test and at run time). Plus verification histories (a genuine spend first, then an output locked to each kind of malformed public key, in P2PK / P2PKH / multisig placements) and VerifySignature with witness-carrying funding transactions. Every substitution is verified without flags first (judged by the reference interpreter) and then with P2SH; verify.edit.verify.undo.verify histories on ONE CMutableTransaction object over the whole edit catalogue with alternating flag sets.',
+    'table must agree with that oracle (self-test and at run time). Plus verification histories (a genuine spend first, then an output locked to each kind of malformed public key, in P2PK / P2PKH / multisig placements) and VerifySignature with witness-carrying funding transactions. Every substitution is verified without flags first (judged by the reference interpreter) and then with P2SH; verify.edit.verify.undo.verify histories on ONE CMutableTransaction object over the whole edit catalogue with alternating flag sets. Those histories start with evaluations that cannot succeed on a fresh scriptPubKey object; damaged encodings of every signature are checked right after the genuine input. All script checks share one CScript object per byte string and alternate a mutable / immutable spending transaction compared with its baseline after every call.',
     'DESIGN.md 3 C05', 'Oracle ref/sighash.py + ref/secp256k1.py; nonce owned (props/eckeys.py); digest collisions ignored.',
     'exhaustive single-edit fault enumeration over sign-edit-verify histories against a reference model')
 
@@ -167,7 +167,7 @@ add('C09', 'model_checking',
     'hashes + VerifyScript) on any object; depth 3 (4). Every node is rebuilt by replaying its history on fresh objects; in every '
     'state every live object\'s serialisation, identifiers, hash() and == equal the reference model (plain dicts, deep-copied at copy '
     'events) and every slot of every immutable object (and its sub-objects) rejects setattr/delattr. Dedup key = models + alias graph '
-    'of real sub-objects + cache-population flags. Plus the complete family copy . compute . edit . copy . compute . use . edit. Plus default-constructed objects (editing one never changes another) and attempts to plant or delete the identifier caches of immutables. Events include failing computations (a field pushed out of its wire range, every computation must raise, field restored); blocks fill two positions and their merkle / witness merkle trees are compared in every state.',
+    'of real sub-objects + cache-population flags. Plus the complete family copy . compute . edit . copy . compute . use . edit. Plus default-constructed objects (editing one never changes another) and attempts to plant or delete the identifier caches of immutables. Events include failing computations (a field pushed out of its wire range, every computation must raise, field restored); blocks fill two positions and their merkle / witness merkle trees are compared in every state. The fail event includes snapshots that cannot be made (nSequence 2^32); edits include the null outpoint.',
     'DESIGN.md 3 C09', 'Reference model ref/wire.py on nested dicts. Key soundness: models, aliasing and cache presence are everything the library reads.',
     'explicit-state breadth-first search over operation histories with history replay on fresh real objects and a reference model')
 
@@ -192,7 +192,7 @@ add('C16', 'fault_enumeration',
     'proof of work is live): every transaction entry applied to every transaction incl. the coinbase, second/missing/misplaced '
     'coinbase, duplicate transaction (and same txid with other witness), sig-ops 19,999/20,000/20,001 in three distributions incl. '
     'malformed trailing pushes, wrong/zero merkle root, 14 witness-commitment modes, timestamp +7200/+7201, bad hash, bits above '
-    'limit/zero/negative, other chains; all pairs on the 3-transaction witness block; block size and weight at +-1 of the limits. Plus every history of <=4 (5) events over {select chain, CheckBlock(2 blocks), CheckBlockHeader(2 difficulty levels)} judged by the rules of the chain selected at that moment. Single entries: the scripts are inspected (accurate sig-op count) on separate equal objects before the check and every block is checked twice; a sig-op distribution where accurate and legacy counts differ.',
+    'limit/zero/negative, other chains; all pairs on the 3-transaction witness block; block size and weight at +-1 of the limits. Plus every history of <=4 (5) events over {select chain, CheckBlock(2 blocks), CheckBlockHeader(2 difficulty levels)} judged by the rules of the chain selected at that moment. Single entries: the scripts are inspected (accurate sig-op count) on separate equal objects before the check and every block is checked twice; a sig-op distribution where accurate and legacy counts differ. Plus ONE mutable transaction looked at (outpoints in a set, everything hashed), edited in place into every rule violation and back; every sequence of <=3 header / block checks over 3 clock values x {+7200, +7201}.',
     'DESIGN.md 3 C16', 'Oracle ref/rules.py (agrees with the repository\'s checkblock_valid/invalid vectors). Commitment outputs > 39 bytes are don\'t-care.',
     'exhaustive single and pairwise rule-violation (fault) enumeration against a reference rule list')
 
@@ -204,7 +204,7 @@ add('C18', 'fault_enumeration',
     '8,420 streams of <=3 frames from a pool of 20 (position after every message). Every pool frame: every truncation point, every '
     'byte x 4 corruptions judged by region (magic/checksum/payload must be rejected, command judged by what it names, length by '
     'the slice), a 9-value length-field catalogue with recomputed checksum and a sentinel frame (nothing read beyond the header for '
-    'lengths > MAX_SIZE), foreign-chain magic. Plus every history of <=4 (5) events over {select chain, frame 4 types, parse own-chain frames, parse a foreign-chain frame} and headers lists holding CBlock objects. Plus reuse of parsed objects: parse, edit a field, re-frame, parse again. Every message is framed, all its fields re-assigned on the same object, and framed again; from_bytes on every truncation right after the complete frame.',
+    'lengths > MAX_SIZE), foreign-chain magic. Plus every history of <=4 (5) events over {select chain, frame 4 types, parse own-chain frames, parse a foreign-chain frame} and headers lists holding CBlock objects. Plus reuse of parsed objects: parse, edit a field, re-frame, parse again. Every message is framed, all its fields re-assigned on the same object, and framed again; from_bytes on every truncation right after the complete frame. Plus in-place edits of one CAddress object inside addr / version messages (IPv6 <-> IPv4) and default-constructed messages after another default-constructed one was edited in place.',
     'DESIGN.md 3 C18', 'Oracle ref/p2p.py (payload layouts from the protocol documentation; literal verack/ping frames).',
     'exhaustive single-fault enumeration on frames plus bounded exhaustive enumeration of messages and frame streams against a reference model')
 
@@ -217,7 +217,7 @@ add('C19', 'model_checking',
     'Plus complete families: every satoshi 0..100,000 and ~1,000 boundary amounts (every fractional-digit pattern, d*10^k, 21e14-1) '
     'in up to 5 textual forms (fixed, trimmed, integer, exponent) through 7 receiving fields and 2 sending methods (request body '
     'parsed with Decimal); 36 hash pairs through every method that sends or returns a hash incl. 3 chained histories; '
-    'transactions/blocks/headers through every hex path bit-exactly; one mutable transaction sent, edited in place (whole catalogue) and sent again through every sending method.',
+    'transactions/blocks/headers through every hex path bit-exactly; one mutable transaction sent, edited in place (whole catalogue) and sent again through every sending method. Reply kinds include a body cut inside a multi-byte character; the requests issued by generate / generatetoaddress are observed before the returned iterable is consumed.',
     'DESIGN.md 3 C19', 'No network: Proxy(connection=...) with a scripted connection. State dedup is sound: the key contains the proxy\'s only mutable state.',
     'explicit-state breadth-first search over call/reply histories with fault replies, plus bounded exhaustive value enumeration')
 
